@@ -312,6 +312,17 @@ func SegPoolW(t *rapid.T, n int, wild bool, w3 [3]int) []model.Seg {
 	return pool
 }
 
+// value draws a raw value for a placeholder or match-all: mostly from the
+// pool, occasionally a very long one (the properties quantify over paths of
+// any length).
+func value(t *rapid.T) string {
+	if rapid.IntRange(0, 39).Draw(t, "longval") == 0 {
+		unit := pick(t, "unit", []string{"ab", "x", "%41", "1", "a.b-"})
+		return strings.Repeat(unit, rapid.IntRange(300, 3000).Draw(t, "nunit"))
+	}
+	return pick(t, "val", Values)
+}
+
 // SegInstance draws raw path segments admitted by the segment (one segment,
 // or 1..3 for a match-all).
 func SegInstance(t *rapid.T, s model.Seg) []string {
@@ -323,7 +334,7 @@ func SegInstance(t *rapid.T, s model.Seg) []string {
 		}
 		return []string{s.Elems[0].Lit}
 	case model.KPlaceholder:
-		return []string{pick(t, "val", Values)}
+		return []string{value(t)}
 	case model.KMatchAll:
 		max := 3
 		if capture > 0 && capture < max {
@@ -332,7 +343,7 @@ func SegInstance(t *rapid.T, s model.Seg) []string {
 		n := rapid.IntRange(1, max).Draw(t, "nma")
 		var out []string
 		for i := 0; i < n; i++ {
-			out = append(out, pick(t, "val", Values))
+			out = append(out, value(t))
 		}
 		return out
 	case model.KRegex:
